@@ -398,6 +398,16 @@ def apply_havoc(eng, st: State, entry: State, assigned, cl_changed, writes, ctr_
     st.trace = list(st.trace) + [seg]
 
 
+def _is_key_storage(t):
+    """t is DKEYS[...] (possibly under Stores): the internal key list of a dictionary"""
+    if z3.is_app(t) and t.decl().kind() == z3.Z3_OP_SELECT:
+        m = t.arg(0)
+        while z3.is_app(m) and m.decl().kind() == z3.Z3_OP_STORE:
+            m = m.arg(0)
+        return z3.is_const(m) and "DKEYS" in m.decl().name()
+    return False
+
+
 def cut_loop(eng, n, st: State, itv, spec):
     E = _E()
     is_for = isinstance(n, ast.For)
@@ -508,6 +518,8 @@ def cut_loop(eng, n, st: State, itv, spec):
             if key[0] in ("LEN", "ELT") and not fresh:
                 for src in im.source_refs():
                     if not loop_internal(ref, ctr_at_entry):
+                        if _is_key_storage(ref) != _is_key_storage(src):
+                            continue    # the key storage of a dictionary is never a program-visible list (IS_KEYS)
                         same = eng.quick_sat(st.pc, ref == src)
                         if same != "unsat":
                             if os.environ.get("PYVC_DEBUG"):
